@@ -14,7 +14,7 @@ import (
 
 func TestMain(m *testing.M) { pk.Main(m) }
 
-var contexts = []string{"loop", "while", "for-range", "for-list", "block", "if-then", "if-else", "match-arm", "match-default", "try", "catch", "fn", "lambda"}
+var contexts = []string{"loop", "while", "for-range", "for-list", "block", "if-then", "if-else", "match-arm", "match-default", "try", "catch", "fn", "lambda", "rec", "rec-try"}
 var exits = []string{"break", "continue", "return", "return-null", "throw-caught", "throw-uncaught", "fatal-div", "fatal-index", "none"}
 
 // ---- small AST helpers
@@ -130,6 +130,38 @@ func (b *builder) wrap(ctx string, level int, inner []hs.Stmt) []hs.Stmt {
 			return []hs.Stmt{hs.ExprStmt{X: call}, say(sl("returned " + tag))}
 		}
 		return []hs.Stmt{say(sl("returned "+tag), call)}
+	case "rec", "rec-try":
+		// a recursive function: the inner construct runs in the deepest of three activations. "rec-try": every
+		// recursive call sits inside a try block of the calling activation, so the nearest dynamically
+		// enclosing handler of the deepest activation belongs to an older activation of the SAME function.
+		name := b.fresh("r")
+		dT := hs.TInt
+		d := id("d", dT)
+		recCall := hs.Call{Fn: hs.Ident{Name: name, T: hs.TFn(b.retT(), dT)}, Args: []hs.Expr{hs.Infix{Op: "-", L: d, R: il(1), T: hs.TInt}}, T: b.retT()}
+		var step []hs.Stmt
+		if b.retNull {
+			step = []hs.Stmt{hs.ExprStmt{X: recCall}, say(sl("rec-back "+tag), d)}
+		} else {
+			step = []hs.Stmt{say(sl("rec-back "+tag), d, recCall)}
+		}
+		if ctx == "rec-try" {
+			e := b.fresh("e")
+			step = []hs.Stmt{hs.ExprStmt{X: &hs.Try{Body: blk(append(step, say(sl("rec-try-end "+tag), d))...), CatchVar: e, T: hs.TNull,
+				Catch: blk(say(sl("rec-caught "+tag), d, hs.Member{X: id(e, errT), Name: "message", T: hs.TStr}))}}}
+		}
+		fb := &hs.Block{T: b.retT()}
+		fb.Stmts = append(fb.Stmts, say(sl("rec-enter "+tag), d), let("loc", hs.Infix{Op: "*", L: d, R: il(10), T: hs.TInt}),
+			ifs(hs.Infix{Op: ">", L: d, R: il(0), T: hs.TBool}, blk(step...), blk(body...)),
+			say(sl("rec-leave "+tag), d, id("loc", hs.TInt)))
+		if !b.retNull {
+			fb.Tail = hs.Infix{Op: "+", L: il(int64(300 + level)), R: d, T: hs.TInt}
+		}
+		b.fns = append(b.fns, hs.FnDef{Name: name, Params: []hs.Param{{Name: "d", T: dT}}, Ret: b.retT(), Body: fb})
+		call := hs.Call{Fn: hs.Ident{Name: name, T: hs.TFn(b.retT(), dT)}, Args: []hs.Expr{il(2)}, T: b.retT()}
+		if b.retNull {
+			return []hs.Stmt{hs.ExprStmt{X: call}, say(sl("returned " + tag))}
+		}
+		return []hs.Stmt{say(sl("returned "+tag), call)}
 	case "lambda":
 		name := b.fresh("lam")
 		fb := &hs.Block{Stmts: body, T: b.retT()}
@@ -196,7 +228,7 @@ func valid(s Spec) bool {
 		// needs an enclosing loop with no function boundary in between
 		for i := len(s.Path) - 1; i >= 0; i-- {
 			switch s.Path[i] {
-			case "fn", "lambda":
+			case "fn", "lambda", "rec", "rec-try":
 				return false
 			case "loop", "while", "for-range", "for-list":
 				return true
@@ -205,7 +237,7 @@ func valid(s Spec) bool {
 		return false
 	case "throw-uncaught":
 		for _, c := range s.Path {
-			if c == "try" {
+			if c == "try" || c == "rec-try" {
 				return false
 			}
 		}
